@@ -32,8 +32,10 @@ def gen_lm(r):
     for i, nm in enumerate(names):
         ty = r.choice(["int", "int", "str"])
         required = r.random() < 0.6
+        if not required and r.random() < 0.3:
+            ty = "optint"                                   # Optional[int] = None: the default is the value None itself
         out.append({"name": nm, "type": ty, "required": required,
-                    "default": None if required else (10 + i if ty == "int" else f"d{i}"),
+                    "default": None if required or ty == "optint" else (10 + i if ty == "int" else f"d{i}"),
                     "kw_only": False})
     out.sort(key=lambda f: not f["required"])               # positional kinds need required first
     if r.random() < 0.3:
@@ -58,7 +60,7 @@ def supports(kind, lm):
     if kind == "pydantic":
         return not private            # private attributes are a separate category there
     if kind == "sqlalchemy":
-        return not private and not kw
+        return not private and not kw and not any(f["type"] == "optint" for f in lm)
     return True
 
 
@@ -67,7 +69,7 @@ _counter = itertools.count()
 
 def materialise(kind, lm):
     import attrs
-    py = {"int": int, "str": str}
+    py = {"int": int, "str": str, "optint": Optional[int]}
     n = next(_counter)
     if kind == "dataclass":
         specs = []
@@ -121,7 +123,7 @@ def materialise(kind, lm):
 def _namedtuple_with_defaults(name, lm, py):
     src = f"class {name}(NamedTuple):\n" + "".join(
         f"    {f['name']}: {f['type']}" + ("" if f["required"] else f" = {f['default']!r}") + "\n" for f in lm)
-    ns = {"NamedTuple": NamedTuple}
+    ns = {"NamedTuple": NamedTuple, "optint": Optional[int]}
     exec(src, ns)  # noqa: S102  (names and defaults from our own pools)
     return ns[name]
 
@@ -206,7 +208,7 @@ def run(rep, tier, seed):
             shape_cases.append((f"({coq_kind(k)}, {coq_lm(lm)})", got))
             shape_meta.append(dict(info, kind=k, reported=got))
         # ---------------------------------------------------------------- behaviour across kinds
-        good = {f["name"]: (r.randint(1, 99) if f["type"] == "int" else f"s{r.randint(1, 9)}") for f in lm}
+        good = {f["name"]: (r.randint(1, 99) if f["type"] in ("int", "optint") else f"s{r.randint(1, 9)}") for f in lm}
         inputs = [("all", dict(good)), ("required-only", {f["name"]: good[f["name"]] for f in lm if f["required"]})]
         req = [f["name"] for f in lm if f["required"]]
         if req:
@@ -228,12 +230,20 @@ def run(rep, tier, seed):
                     per_kind[k] = {"creation": "refused"}
                     continue
                 # where this recipe puts every field: dump an object holding a distinct sentinel per field
-                sent = {f["name"]: (9000 + i if f["type"] == "int" else f"sentinel{i}") for i, f in enumerate(lm)}
+                sent = {f["name"]: (9000 + i if f["type"] in ("int", "optint") else f"sentinel{i}") for i, f in enumerate(lm)}
                 probe = outcome(lambda: dm(build(k, cls, lm, sent)))
                 full = build(k, cls, lm, good)
                 d = outcome(lambda: dm(full))
                 stats["dumps"] += 1
                 res["dump"] = d
+                if k != "typed_dict":      # (a TypedDict has no defaults)
+                    # an object whose optional fields hold their defaults, every second one: what omit_default leaves out
+                    # and what the other variants write must not depend on the kind
+                    opt = [f for f in lm if not f["required"]]
+                    for tag, chosen in (("dump:all-defaults", opt), ("dump:some-defaults", opt[::2])):
+                        vals = dict(good, **{f["name"]: f["default"] for f in chosen})
+                        res[tag] = outcome(lambda: dm(build(k, cls, lm, vals)))
+                        stats["dumps"] += 1
                 if d[0] == "ok" and probe[0] == "ok":
                     paths = paths_of(probe[1], sent)
                     back = outcome(lambda: ld(d[1]))
@@ -290,11 +300,13 @@ def run(rep, tier, seed):
                       dict(m, what=f"the fields adaptix reports for the {m['kind']} twin differ from the model of its introspector", model=got))
     for k, err in ev.errors:
         rep.violation("coq-eval-error", "harness-error", {"what": err[-1500:]}, no_input=True)
+    n_rec = recursive_block(rep)
     rep.cov.update({
-        "evaluations": stats["loads"] + stats["dumps"] + stats["converters"] + stats["shape_checks"],
+        "evaluations": stats["loads"] + stats["dumps"] + stats["converters"] + stats["shape_checks"] + n_rec,
         "distinct_nontrivial": stats["models"],
-        "rule": "logical models of 2-4 fields over 8 snake-case names (one with a trailing underscore), int / str, required or "
-                "defaulted, the last field keyword-only in 30%, the first one private in 25%; each materialised in the kinds "
+        "rule": "logical models of 2-4 fields over 8 snake-case names (one with a trailing underscore), int / str / Optional[int] = None, "
+                "required or defaulted (objects holding all / some defaults are dumped too), a self-referencing model with "
+                "forward references in five kinds, the last field keyword-only in 30%, the first one private in 25%; each materialised in the kinds "
                 "that can express it (NamedTuple / SQLAlchemy: no keyword-only, no private; TypedDict / pydantic: no private); "
                 "per model 6 name_mapping variants (default, CAMEL, rename + nesting, skip, omit_default, extra forbid) x 5 "
                 "inputs (all, required only, a required key missing, an ill-typed value, an extra key) + dump + round trip, "
@@ -307,6 +319,65 @@ def run(rep, tier, seed):
     as_list_order(rep, r)
     import loadgen as lg
     lg.proof_problems(rep, PID, proof)
+
+
+REC_SRC = {
+    "dataclass": "from dataclasses import dataclass\n@dataclass\nclass Node:\n    name: str\n    parent: Optional['Node']\n    children: List['Node']\n",
+    "named_tuple": "class Node(NamedTuple):\n    name: str\n    parent: Optional['Node']\n    children: List['Node']\n",
+    "typed_dict": "class Node(TypedDict):\n    name: str\n    parent: Optional['Node']\n    children: List['Node']\n",
+    "attrs": "import attrs\n@attrs.define\nclass Node:\n    name: str\n    parent: Optional['Node']\n    children: List['Node']\n",
+    "pydantic": "import pydantic\nclass Node(pydantic.BaseModel):\n    name: str\n    parent: Optional['Node']\n    children: List['Node']\nNode.model_rebuild()\n",
+}
+
+
+def recursive_block(rep):
+    """the self-referencing logical model Node(name, parent: Optional['Node'], children: List['Node']) in every kind that can
+    spell it: same loads, same dumps, same errors"""
+    import sys
+    import types
+
+    from adaptix import DebugTrail, Retort
+    good = {"name": "a", "parent": {"name": "p", "parent": None, "children": []},
+            "children": [{"name": "c", "parent": None, "children": [{"name": "g", "parent": None, "children": []}]}]}
+    bad = {"name": "a", "parent": None, "children": [{"name": "c", "parent": {"name": 5, "parent": None, "children": []}, "children": []}]}
+
+    def plain(kind, o):
+        if o is None:
+            return None
+        get = (lambda k: o[k]) if kind == "typed_dict" else (lambda k: getattr(o, k))
+        return {"name": get("name"), "parent": plain(kind, get("parent")), "children": [plain(kind, c) for c in get("children")]}
+    n = 0
+    res = {}
+    for kind, src in REC_SRC.items():
+        m = types.ModuleType(f"verif_c17_rec_{kind}")
+        sys.modules[m.__name__] = m
+        try:
+            exec("from typing import List, NamedTuple, Optional, TypedDict\n" + src, m.__dict__)  # noqa: S102
+        except Exception as e:  # noqa: BLE001
+            rep.violation(f"materialise:recursive:{kind}", "harness-error", {"what": f"{type(e).__name__}: {e}"})
+            continue
+        out = {}
+        for mode in (DebugTrail.ALL, DebugTrail.DISABLE):
+            rt = Retort(debug_trail=mode, strict_coercion=True)
+            o = outcome(lambda: rt.load(good, m.Node))
+            n += 3
+            out[f"load:{mode.name}"] = (o[0], plain(kind, o[1]) if o[0] == "ok" else o[1])
+            out[f"dump:{mode.name}"] = outcome(lambda: rt.dump(o[1], m.Node)) if o[0] == "ok" else ("skipped", None)
+            out[f"bad:{mode.name}"] = outcome(lambda: rt.load(bad, m.Node))
+        res[kind] = out
+    kinds = list(res)
+    for k in kinds[1:]:
+        for key in res[kinds[0]]:
+            x, y = res[kinds[0]][key], res[k][key]
+            if x != y:
+                rep.violation(f"kinds-differ:recursive:{key.split(':')[0]}:{kinds[0]}-vs-{k}", "property-violated",
+                              {"what": f"recursive model Node, {key}: {kinds[0]} gives {x!r}, {k} gives {y!r}"})
+    exp = ("ok", good)
+    for k in kinds:
+        if res[k]["load:ALL"] != exp or res[k]["dump:ALL"] != exp:
+            rep.violation(f"recursive:{k}", "property-violated",
+                          {"what": f"recursive model Node as {k}: load gives {res[k]['load:ALL']!r}, dump gives {res[k]['dump:ALL']!r}"})
+    return n
 
 
 def paths_of(dumped, sent):
